@@ -96,6 +96,13 @@ pub fn worker_main(args: &[String]) -> i32 {
     let explicit: Option<Vec<u64>> = args.get(7).map(|s| s.split(',').filter(|x| !x.is_empty()).map(|x| x.parse().unwrap()).collect());
     let no_shrink = std::env::var("VERIF_NO_SHRINK").is_ok();
     let check = match checks::get(id) { Some(c) => c, None => { eprintln!("unknown check {}", id); return 2; } };
+    // a runaway evaluation may also allocate without bound: cap the address space of the worker, so
+    // that it aborts (and is reported as a run that did not return) instead of exhausting the machine
+    unsafe {
+        let cap: libc::rlim_t = env_u64("VERIF_WORKER_MEM_MB", 4096) as libc::rlim_t * 1024 * 1024;
+        let lim = libc::rlimit { rlim_cur: cap, rlim_max: cap };
+        libc::setrlimit(libc::RLIMIT_AS, &lim);
+    }
     let env = Env::new();
     if env.host_tz != HOST_ZONES[zone as usize] { eprintln!("harness error: worker TZ {:?} != zone {}", env.host_tz, zone); return 2; }
     let known: BTreeSet<String> = load_known().findings.iter().filter(|f| &f.property == id).map(|f| f.key.clone()).collect();
@@ -382,8 +389,17 @@ pub fn check_main(args: &[String]) -> i32 {
     // indices whose execution did not come back (hang or abort): (index, why)
     let mut lost: Vec<(u64, String)> = Vec::new();
     let mut harness_lost = 0u64;
+    // once this many runs did not come back the batch is stopped: every further one costs the
+    // watchdog limit, and the first few are all a report needs
+    let max_lost = env_u64("VERIF_MAX_LOST", 6) as usize;
+    let mut stopped_early = false;
     loop {
         if workers.iter().all(|w| w.eof) { break; }
+        if lost.len() >= max_lost {
+            stopped_early = true;
+            for w in workers.iter_mut() { let _ = w.child.kill(); let _ = w.child.wait(); w.eof = true; }
+            break;
+        }
         match rx.recv_timeout(Duration::from_millis(500)) {
             Ok(Msg::Begin { w, i }) => { workers[w].open = Some((i, Instant::now())); }
             Ok(Msg::Run { w, line }) => {
@@ -437,7 +453,7 @@ pub fn check_main(args: &[String]) -> i32 {
 
     // confirm lost indices in a fresh process, alone, with a longer limit
     let mut confirmed_lost: Vec<(u64, String, Option<Trace>)> = Vec::new();
-    for (i, why) in lost.iter() {
+    for (i, why) in lost.iter().take(if stopped_early { 3 } else { usize::MAX }) {
         let z = (*i % nz as u64) as usize;
         match run_single(&id, &tier, base, total, z as u64, *i, 3 * hang_s) {
             SingleOutcome::Line(l) => { agg.add(l); }
@@ -451,7 +467,7 @@ pub fn check_main(args: &[String]) -> i32 {
     // determinism guard: re-execute a sample in fresh processes with another worker layout
     let mut recheck_n = 0u64;
     let mut recheck_bad = 0u64;
-    if std::env::var("VERIF_NO_RECHECK").is_err() {
+    if std::env::var("VERIF_NO_RECHECK").is_err() && !stopped_early {
         let stride = if total >= 2000 { 100 } else { 20 };
         let mut by_zone: BTreeMap<u64, Vec<u64>> = BTreeMap::new();
         for i in (0..total).step_by(stride) { if agg.hashes.contains_key(&i) { by_zone.entry(i % nz as u64).or_default().push(i); } }
@@ -602,7 +618,10 @@ pub fn check_main(args: &[String]) -> i32 {
     for l in out_lines.iter() { println!("{}", l); }
     println!("runs={} distinct_nontrivial={} judged={} unjudged={} calls={} clock_reads={} faults_fired={} wall={:.1}s", agg.runs, agg.nontrivial_hashes.len(), agg.judged, agg.unjudged, agg.evaluations, agg.clock_reads, fault_kinds.values().sum::<u64>(), wall);
     println!("faults: {}", fault_kinds.iter().map(|(k, v)| format!("{}={}", k, v)).collect::<Vec<_>>().join(" "));
-    if agg.runs + confirmed_lost.len() as u64 + harness_lost != total {
+    if stopped_early {
+        println!("batch stopped early: {} runs did not come back (limit VERIF_MAX_LOST={}); {} of them re-run alone, {} confirmed", lost.len(), max_lost, lost.len().min(3), confirmed_lost.len());
+        if confirmed_lost.is_empty() { harness_errors.push("runs were lost in the batch but none of the re-run ones was lost alone".into()); }
+    } else if agg.runs + confirmed_lost.len() as u64 + harness_lost != total {
         harness_errors.push(format!("expected {} runs, got {} results and {} confirmed lost", total, agg.runs, confirmed_lost.len()));
     }
     if !harness_errors.is_empty() {
